@@ -42,10 +42,18 @@ CONSTANTS Hosts,      \* subject hosts: integers > 1
           Fixed,      \* deviations repaired: subset of Deviations
           FineUp      \* TRUE: with two sessions Cluster.on_up is split between the two iterations of its submit loop
 
-Deviations == {"D1_late_pool", "D2_discount_pool", "D3_ctl_after_shutdown", "D4_recon_removed", "D5_up_loop", "D6_unknown_down"}
+Deviations == {"D1_late_pool", "D2_discount_pool", "D3_ctl_after_shutdown", "D4_recon_removed", "D5_up_loop", "D6_unknown_down", "D7_stale_pool"}
 
 Ctl == 1
 AllHosts == Hosts \cup {Ctl}
+
+(* Host objects.  A node that is removed and comes back at the same address is a NEW Host object (Cluster.add_host), while  *)
+(* tasks queued for the old object still hold the old one.  With the flag "readd" in Env every subject endpoint h can have *)
+(* a second incarnation, written h + 10.  What the driver keys by Host *equality* (endpoint: Session._pools, the policies'  *)
+(* live sets, metadata lookups by endpoint) is indexed by the endpoint Ep(o); what lives on the Host object (is_up, the     *)
+(* reconnection handler, _currently_handling_node_up, membership of the metadata as that object) by the object o.          *)
+Objs == Hosts \cup (IF "readd" \in Env THEN {h + 10 : h \in Hosts} ELSE {})
+Ep(o) == IF o >= 10 THEN o - 10 ELSE o
 
 VARIABLES cs,         \* everything the driver's code paths transform, as one record (fields below)
           mode,       \* [Hosts -> {"ok","refuse","auth"}]  what happens to a new connection to the node
@@ -132,13 +140,13 @@ SetDown(st, h) == IF st.up[h] = "T"
 SetUp(st, h) == [st EXCEPT !.up[h] = "T"]
 
 LbpEmit(st, kind, h) ==
-    LET s1 == [st EXCEPT !.emP = Append(@, <<kind, h>>)] IN
-    CASE kind = "up"     -> [s1 EXCEPT !.lbpLive = @ \cup {h}, !.lbpUp[h] = @ + 1]
-      [] kind = "add"    -> [s1 EXCEPT !.lbpLive = @ \cup {h}]
-      [] kind = "down"   -> [s1 EXCEPT !.lbpLive = @ \ {h}, !.lbpUp[h] = 0]
-      [] kind = "remove" -> [s1 EXCEPT !.lbpLive = @ \ {h}, !.lbpUp[h] = 0]
+    LET s1 == [st EXCEPT !.emP = Append(@, <<kind, Ep(h)>>)] IN
+    CASE kind = "up"     -> [s1 EXCEPT !.lbpLive = @ \cup {Ep(h)}, !.lbpUp[h] = @ + 1]
+      [] kind = "add"    -> [s1 EXCEPT !.lbpLive = @ \cup {Ep(h)}]
+      [] kind = "down"   -> [s1 EXCEPT !.lbpLive = @ \ {Ep(h)}, !.lbpUp[h] = 0]
+      [] kind = "remove" -> [s1 EXCEPT !.lbpLive = @ \ {Ep(h)}, !.lbpUp[h] = 0]
 LsnEmit(st, kind, h) ==
-    LET s1 == [st EXCEPT !.emL = Append(@, <<kind, h>>)] IN
+    LET s1 == [st EXCEPT !.emL = Append(@, <<kind, Ep(h)>>)] IN
     CASE kind = "up"  -> [s1 EXCEPT !.lsnUp[h] = @ + 1]
       [] kind = "add" -> [s1 EXCEPT !.lsnAdd[h] = @ + 1]
       [] OTHER        -> s1
@@ -148,29 +156,29 @@ LsnEmit(st, kind, h) ==
 (* set and IGNORED for one it has been told is down (or has not been told about yet).  Every place of the code that asks   *)
 (* profile_manager.distance(host) is evaluated on the state at that point.                                                 *)
 Remote == IF "remote" \in Env THEN {h \in Hosts : h >= 3} ELSE {}
-Ign(st, h) == h \in Ignored \/ (h \in Remote /\ h \notin st.lbpLive)
+Ign(st, h) == Ep(h) \in Ignored \/ (Ep(h) \in Remote /\ Ep(h) \notin st.lbpLive)
 
 (* Session.add_or_renew_pool: no future for an ignored host or a session that is shut down *)
-HasFuture(h) == h \notin Ignored /\ ~SessShut                  \* for a host the policies have just been told is up / added
+HasFuture(h) == Ep(h) \notin Ignored /\ ~SessShut                  \* for a host the policies have just been told is up / added
 HasFutureS(st, h) == ~Ign(st, h) /\ ~SessShut
 SessAdd(st, s, h, kind, n) == IF HasFutureS(st, h) THEN Submit(st, TAddPool(s, h, kind, n)) ELSE st
 
 (* Session.remove_pool: pop, submit pool.shutdown (upd: Session.on_down adds update_created_pools as done-callback) *)
 RemovePool(st, s, h, upd) ==
-    LET p == st.pools[s][h] IN
+    LET p == st.pools[s][Ep(h)] IN
     IF p = "none" THEN st
-    ELSE LET s1 == [st EXCEPT !.pools[s][h] = "none"] IN
+    ELSE LET s1 == [st EXCEPT !.pools[s][Ep(h)] = "none"] IN
          IF SessShut THEN (IF p = "open" THEN [s1 EXCEPT !.leaked = @ + 1] ELSE s1)    \* Session.submit returns None
-         ELSE Submit(s1, TPoolShut(s, h, p = "open", upd))
+         ELSE Submit(s1, TPoolShut(s, Ep(h), p = "open", upd))
 
 (* Session.update_created_pools *)
 UpdPools(st, s) ==
     Fold(LAMBDA x, h : IF ~x.known[h] THEN x
-                       ELSE IF x.pools[s][h] \in {"none", "shut"}
+                       ELSE IF x.pools[s][Ep(h)] \in {"none", "shut"}
                        THEN (IF ~Ign(x, h) /\ x.up[h] \in {"T", "N"} THEN SessAdd(x, s, h, "upd", 0) ELSE x)
                        ELSE IF Ign(x, h) THEN RemovePool(x, s, h, FALSE)      \* distance != pool.host_distance and now IGNORED
                        ELSE x,
-         st, Hosts)
+         st, Objs)
 UpdAllPools(st) == Fold(LAMBDA x, s : UpdPools(x, s), st, Sessions)
 
 (* get_and_set_reconnection_handler(None) [+ cancel]: the entries of the host's handler follow it *)
@@ -248,11 +256,15 @@ OnRemoveE(st, h) ==
                   s3 == LsnEmit(s2, "remove", h)
               IN Detach(s3, h, TRUE)
 
+(* the Host object the metadata holds for endpoint e (0: none); the object a new Host for endpoint e would be (0: not modelled) *)
+KnownObj(st, e) == IF \E o \in Objs : Ep(o) = e /\ st.known[o] THEN CHOOSE o \in Objs : Ep(o) = e /\ st.known[o] ELSE 0
+FreshObj(st, e) == IF ~st.known[e] /\ ~st.removed[e] THEN e
+                   ELSE IF e + 10 \in Objs /\ ~st.known[e + 10] /\ ~st.removed[e + 10] THEN e + 10 ELSE 0
 (* ControlConnection._refresh_node_list_and_token_map against what the control node reports *)
 DoRefresh(st) ==
-    LET adds == {h \in peers : ~st.known[h] /\ ~st.removed[h]}
+    LET adds == {FreshObj(st, h) : h \in {e \in peers : KnownObj(st, e) = 0 /\ FreshObj(st, e) # 0}}
         s1 == Fold(LAMBDA x, h : OnAddE([x EXCEPT !.known[h] = TRUE, !.up[h] = "N"], h), st, adds)
-        rems == {h \in Hosts : s1.known[h] /\ h \notin peers}
+        rems == {h \in Objs : s1.known[h] /\ Ep(h) \notin peers}
         \* ControlConnection.on_remove refreshes again through ControlConnection._connection: nothing is left to do when
         \* that is the connection in use; while a reconnect is still installing its connection it is the defunct one
         \* and the failure is signalled (_signal_error -> on_down of the control host)
@@ -312,12 +324,14 @@ Opened(st) == [st EXCEPT !.emC = @ + 1]
 RunAddPool(st, t) ==
     LET s == t.s
         h == t.h
-        m == IF h = Ctl THEN "ok" ELSE mode[h]
+        m == IF h = Ctl THEN "ok" ELSE mode[Ep(h)]
         add == t.kind = "add"
     IN CASE m = "ok" ->
-               IF SessShut /\ "D1_late_pool" \in Fixed
+               IF h # Ctl /\ st.removed[h] /\ "D7_stale_pool" \in Fixed
+               THEN PoolDone(Opened(st), t, FALSE)                           \* repaired: no pool for a Host object that left the metadata
+               ELSE IF SessShut /\ "D1_late_pool" \in Fixed
                THEN PoolDone(Opened(st), t, FALSE)                           \* repaired: the new pool is shut down at once
-               ELSE PoolDone([Opened(st) EXCEPT !.pools[s][h] = "open"], t, TRUE)   \* a previous pool is shut down inline
+               ELSE PoolDone([Opened(st) EXCEPT !.pools[s][Ep(h)] = "open", !.powner[s][Ep(h)] = h], t, TRUE)   \* a previous pool is shut down inline
          [] m = "refuse" -> PoolDone(SubmitOnDown(st, h, add, TRUE), t, FALSE)
          [] m = "drop"   -> PoolDone(SubmitOnDown(Opened(st), h, add, TRUE), t, FALSE)       \* accepted, closed during the handshake
          [] m = "auth"   -> PoolDone(SubmitOnDown([Opened(st) EXCEPT !.authFailed[h] = TRUE], h, add, FALSE), t, FALSE)
@@ -325,7 +339,7 @@ RunAddPool(st, t) ==
 (* Cluster.on_down (the executor task) *)
 RunOnDown(st, t) ==
     LET h == t.h
-        connected == h = Ctl \/ (~Ign(st, h) /\ \E s \in Sessions : st.pools[s][h] = "open")   \* the control host keeps its pools
+        connected == h = Ctl \/ (~Ign(st, h) /\ \E s \in Sessions : st.pools[s][Ep(h)] = "open")   \* the control host keeps its pools
     IN
     IF ClusterShut THEN st
     ELSE IF connected                                                                  \* _discount_down_events: the host stays up
@@ -354,10 +368,10 @@ RunRecon(st, t) ==
 RunReconConn(st, t) ==
     LET h == t.h
         again == [t EXCEPT !.k = "Recon"]
-    IN CASE mode[h] = "refuse" -> IF ClusterShut THEN st ELSE [st EXCEPT !.sched = BagAdd(@, again)]    \* next attempt (run() starts with the cancelled check)
-         [] mode[h] = "drop"   -> IF ClusterShut THEN Opened(st) ELSE [Opened(st) EXCEPT !.sched = BagAdd(@, again)]
-         [] mode[h] = "auth"   -> [Opened(st) EXCEPT !.authFailed[h] = TRUE]    \* gives up; stays the host's handler
-         [] mode[h] = "ok"     ->
+    IN CASE mode[Ep(h)] = "refuse" -> IF ClusterShut THEN st ELSE [st EXCEPT !.sched = BagAdd(@, again)]    \* next attempt (run() starts with the cancelled check)
+         [] mode[Ep(h)] = "drop"   -> IF ClusterShut THEN Opened(st) ELSE [Opened(st) EXCEPT !.sched = BagAdd(@, again)]
+         [] mode[Ep(h)] = "auth"   -> [Opened(st) EXCEPT !.authFailed[h] = TRUE]    \* gives up; stays the host's handler
+         [] mode[Ep(h)] = "ok"     ->
               IF t.f1 THEN Opened(st)                                         \* cancelled while connecting: `if not self._cancelled` - the connection is just closed
               ELSE IF ~t.f2 /\ Fine(h) /\ OnUpProceeds(Opened(st), h) THEN OnUpFineE(Opened(st), h, TRUE)
               ELSE LET s1 == IF t.f2 THEN OnAddRefreshE(Opened(st), h) ELSE OnUpE(Opened(st), h)
@@ -382,7 +396,7 @@ RunCtlDial(st, t) ==
        THEN IF ClusterShut THEN Opened(stop)                           \* _try_connect: `if self._is_shutdown: connection.close(); raise`
             ELSE Submit(DoRefresh([Opened(stop) EXCEPT !.ctlPend = TRUE]), TCtlSet)    \* registers, refreshes with the new connection
        ELSE LET s1 == CASE mode[h] = "refuse" -> st                     \* socket error: not a ConnectionException
-                        [] mode[h] = "drop"   -> SubmitOnDown(Opened(st), h, FALSE, FALSE)    \* ConnectionException: signal_connection_failure
+                        [] mode[h] = "drop"   -> SubmitOnDown(Opened(st), IF KnownObj(st, h) # 0 THEN KnownObj(st, h) ELSE h, FALSE, FALSE)    \* ConnectionException: signal_connection_failure
                         [] OTHER              -> Opened(st)             \* connected (or authentication failed), closed again: some other error
             IN IF ClusterShut THEN [s1 EXCEPT !.ctlPlan = {}]           \* `if self._is_shutdown: raise DriverException` after every failed attempt
                ELSE CtlDialStart(s1, st.ctlPlan)                        \* next host of the plan (the contact point is always left)
@@ -417,20 +431,21 @@ InitExec == LET S == {TAddPool(Max(Sessions), h, "init", 0) : h \in Known0 \ Ign
 (* The state right after cluster.connect() returned for every session with a queueing executor: the last session *)
 (* has its first pool, the others are still initial-connect futures.                                              *)
 Init ==
-    /\ cs = [known |-> [h \in Hosts |-> h \in Known0],
-             removed |-> [h \in Hosts |-> FALSE],
-             up |-> [h \in Hosts |-> IF h \in Known0 \ (Ignored \cup Remote) THEN "T" ELSE "N"],   \* on_add of a host still IGNORED does not set_up
-             handling |-> [h \in Hosts |-> FALSE],
-             recon |-> [h \in Hosts |-> "none"],
+    /\ cs = [known |-> [h \in Objs |-> h \in Known0],
+             removed |-> [h \in Objs |-> FALSE],
+             up |-> [h \in Objs |-> IF h \in Known0 \ (Ignored \cup Remote) THEN "T" ELSE "N"],   \* on_add of a host still IGNORED does not set_up
+             handling |-> [h \in Objs |-> FALSE],
+             recon |-> [h \in Objs |-> "none"],
              pools |-> InitPools,
+             powner |-> [s \in Sessions |-> [h \in AllHosts |-> h]],     \* the Host object each session's pool was created for
              grp |-> <<>>,
              exec |-> InitExec,
              sched |-> EmptyBag,
              lbpLive |-> Known0 \cup {Ctl},
              ctl |-> "open", ctlPend |-> FALSE, leaked |-> 0,
              emL |-> <<>>, emP |-> <<>>, emC |-> 0, ctlPlan |-> {}, ctlLate |-> 0,
-             lsnUp |-> [h \in Hosts |-> 0], lsnAdd |-> [h \in Hosts |-> 0], lbpUp |-> [h \in Hosts |-> 0],
-             authFailed |-> [h \in Hosts |-> FALSE], wentDown |-> [h \in Hosts |-> FALSE], badRecon |-> FALSE]
+             lsnUp |-> [h \in Objs |-> 0], lsnAdd |-> [h \in Objs |-> 0], lbpUp |-> [h \in Objs |-> 0],
+             authFailed |-> [h \in Objs |-> FALSE], wentDown |-> [h \in Objs |-> FALSE], badRecon |-> FALSE]
     /\ mode = [h \in Hosts |-> "ok"]
     /\ peers = Known0
     /\ budget = 0
@@ -460,17 +475,18 @@ Event == phase = 0 /\ budget < MaxEvents /\ budget' = budget + 1
 ConnFailure(s, h) ==
     /\ "fail" \in Env /\ Event
     /\ pools[s][h] = "open"
-    /\ Commit(SubmitOnDown([Cur EXCEPT !.pools[s][h] = "shut"], h, FALSE, FALSE))
+    /\ Commit(SubmitOnDown([Cur EXCEPT !.pools[s][h] = "shut"], cs.powner[s][h], FALSE, FALSE))       \* pool.host: the object the pool was made for
     /\ act' = A("ConnFailure", NoT, s, h, "")
     /\ UNCHANGED <<mode, peers, phase, req>>
 
 (* STATUS_CHANGE pushed on the control connection: ControlConnection._handle_status_change *)
 StatusEvent(h, x) ==
     /\ "status" \in Env /\ Event
-    /\ ctl = "open" /\ known[h]
-    /\ IF x = "UP"
-       THEN Commit(IF TOnUp(h) \in DOMAIN sched THEN Cur ELSE [Cur EXCEPT !.sched = BagAdd(@, TOnUp(h))])    \* schedule_unique
-       ELSE Commit(SubmitOnDown(Cur, h, FALSE, FALSE))
+    /\ ctl = "open" /\ KnownObj(cs, h) # 0                          \* metadata.get_host(address): the object in the metadata
+    /\ LET o == KnownObj(cs, h) IN
+       IF x = "UP"
+       THEN Commit(IF TOnUp(o) \in DOMAIN sched THEN Cur ELSE [Cur EXCEPT !.sched = BagAdd(@, TOnUp(o))])    \* schedule_unique
+       ELSE Commit(SubmitOnDown(Cur, o, FALSE, FALSE))
     /\ act' = A("StatusEvent", NoT, 0, h, x)
     /\ UNCHANGED <<mode, peers, phase, req>>
 
@@ -479,12 +495,14 @@ TopologyEvent(h, x) ==
     /\ "topo" \in Env /\ Event
     /\ ctl = "open"
     /\ IF x = "NEW_NODE"
-       THEN /\ h \notin peers /\ ~known[h] /\ ~removed[h]
+       THEN /\ h \notin peers /\ KnownObj(cs, h) = 0 /\ FreshObj(cs, h) # 0
+            /\ ~\E t \in DOMAIN sched \cup DOMAIN exec : t.k = "RemoveHost" /\ Ep(t.h) = h     \* the node comes back after its removal was handled
             /\ peers' = peers \cup {h}
             /\ Commit(IF TRefreshIf \in DOMAIN sched THEN Cur ELSE [Cur EXCEPT !.sched = BagAdd(@, TRefreshIf)])
-       ELSE /\ h \in peers /\ known[h]
+       ELSE /\ h \in peers /\ KnownObj(cs, h) # 0
             /\ peers' = peers \ {h}
-            /\ Commit(IF TRemoveHost(h) \in DOMAIN sched THEN Cur ELSE [Cur EXCEPT !.sched = BagAdd(@, TRemoveHost(h))])
+            /\ LET o == KnownObj(cs, h) IN
+               Commit(IF TRemoveHost(o) \in DOMAIN sched THEN Cur ELSE [Cur EXCEPT !.sched = BagAdd(@, TRemoveHost(o))])
     /\ act' = A("TopologyEvent", NoT, 0, h, x)
     /\ UNCHANGED <<mode, phase, req>>
 
@@ -562,7 +580,7 @@ NOpenOf(c, cp, lk, pl, ex) ==
 NOpen == NOpenOf(ctl, ctlPend, leaked, pools, exec)       \* connections open right now
 
 TypeOK ==
-    /\ \A h \in Hosts : up[h] \in {"T", "F", "N"} /\ recon[h] \in {"none", "live", "canc"}
+    /\ \A h \in Objs : up[h] \in {"T", "F", "N"} /\ recon[h] \in {"none", "live", "canc"}
     /\ \A s \in Sessions, h \in AllHosts : pools[s][h] \in {"none", "open", "shut"}
     /\ phase \in 0..3 /\ budget \in 0..MaxEvents /\ leaked \in 0..8
 
@@ -571,20 +589,20 @@ LiveRecons(h) == BagCount(sched, LAMBDA t : IsRecon(t) /\ t.h = h /\ ~t.f1)
                  + BagCount(exec, LAMBDA t : IsRecon(t) /\ t.h = h /\ ~t.f1)
 (* executor drained and nothing due in the scheduler (reconnection attempts are the only delayed entries) *)
 Quiescent == phase = 0 /\ exec = EmptyBag /\ \A e \in DOMAIN sched : e.k = "Recon"
-Subject(h) == h \in Hosts /\ ~Ign(cs, h) /\ known[h] /\ ~authFailed[h]
+Subject(h) == h \in Objs /\ ~Ign(cs, h) /\ known[h] /\ ~authFailed[h]
 
 OneReconnector ==
-    Quiescent => \A h \in Hosts : (Subject(h) /\ up[h] = "F") => (recon[h] = "live" /\ LiveRecons(h) = 1)
+    Quiescent => \A h \in Objs : (Subject(h) /\ up[h] = "F") => (recon[h] = "live" /\ LiveRecons(h) = 1)
 NoStrayReconnector ==
-    Quiescent => \A h \in Hosts : Subject(h) => LiveRecons(h) <= 1
+    Quiescent => \A h \in Objs : Subject(h) => LiveRecons(h) <= 1
 RemovedNotReconnected ==
     phase = 0 => /\ ~badRecon
-                 /\ \A h \in Hosts : removed[h] => (recon[h] = "none" /\ LiveRecons(h) = 0)
-NotifiedOnce == \A h \in Hosts : lsnUp[h] <= 1 /\ lsnAdd[h] <= 1 /\ lbpUp[h] <= 1
+                 /\ \A h \in Objs : removed[h] => (recon[h] = "none" /\ LiveRecons(h) = 0)
+NotifiedOnce == \A h \in Objs : lsnUp[h] <= 1 /\ lsnAdd[h] <= 1 /\ lbpUp[h] <= 1
 UpNotified ==
-    phase = 0 => \A h \in Hosts : (Subject(h) /\ up[h] = "T" /\ wentDown[h]) => lsnUp[h] + lsnAdd[h] >= 1
+    phase = 0 => \A h \in Objs : (Subject(h) /\ up[h] = "T" /\ wentDown[h]) => lsnUp[h] + lsnAdd[h] >= 1
 UpHasPools ==
-    Quiescent => \A h \in Hosts : (Subject(h) /\ up[h] = "T") => \A s \in Sessions : pools[s][h] = "open"
+    Quiescent => \A h \in Objs : (Subject(h) /\ up[h] = "T") => \A s \in Sessions : pools[s][Ep(h)] = "open"
 
 (* ---- C45 ---- *)
 (* a control connection reconnect that finds the cluster shut down gives up: it does not go on to the next host of the plan *)
